@@ -77,7 +77,8 @@ def strat_case(draw, tier):
     foff = draw(st.sampled_from([-1.0, -1.0, 1.0])) * draw(st.sampled_from([1.0, 4.0, 0.5, 10.0, 0.39]))  # either band orientation
     md = draw(st.integers(0, max(0, eff - 1)))
     return {"layout": lay, "start": start, "nsamps": nsamps, "gulp": gulp, "fch1": fch1, "foff": foff,
-            "md_target": md, "ichan": draw(st.integers(0, lay["nchans"] - 1)), "np_ints": draw(st.sampled_from([False, False, False, True]))}
+            "md_target": md, "ichan": draw(st.integers(0, lay["nchans"] - 1)), "np_ints": draw(st.sampled_from([False, False, False, True])),
+            "omit_defaults": draw(st.sampled_from([False, False, True])), "precursor": draw(st.sampled_from([False, False, True]))}
 
 
 def f32eq(a, b):
@@ -134,6 +135,7 @@ def check(case, ctx):
     X = D[start : start + eff].astype(np.float64)
     Xf32 = D[start : start + eff].astype(np.float32)
     kw = vs.as_np_ints({"gulp": gulp, "start": start, "nsamps": nsamps, "quiet": True, "description": "v"}, case.get("np_ints"))
+    kw = vs.omit_defaults(kw, case.get("omit_defaults"), eff)
     big = {"gulp": eff + 5, "start": start, "nsamps": nsamps, "quiet": True, "description": "v"}
     labels = [f"{lay['nbits']}bit", f"files{len(lay['split'])}"] + (["numpy_int_arguments"] if case.get("np_ints") else [])
     multi = gulp < eff
@@ -149,6 +151,23 @@ def check(case, ctx):
         except Exception as exc:  # noqa: BLE001
             raise Violation(f"{name}:raised:{type(exc).__name__}", f"{ctxt}: {exc!r}") from exc
 
+    # --- an earlier file of the same session: same band, another sampling interval, other samples.  What was done with
+    # it (same DM, same sub-range) must leave no trace in the results for this file.
+    if case.get("precursor"):
+        import os
+
+        dpre = os.path.join(d, "pre")
+        os.mkdir(dpre)
+        ppaths, _, _, _ = vs.write_layout(dict(lay, data_seed=lay["data_seed"] + 5), dpre, fch1=case["fch1"], foff=case["foff"], tsamp=2 * TSAMP)
+        pre = FilReader(ppaths)
+        try:
+            pre.collapse(**big)
+            pre.read_block(start, eff)
+            pre.dedisperse(dm_for_maxdelay(case["md_target"], case["fch1"], case["foff"], nchans), **big)
+            pre.compute_stats(**big)
+        except Exception:  # noqa: BLE001  (e.g. the DM does not fit the other file's length: irrelevant here)
+            pass
+        labels.append("after_another_file_with_other_tsamp")
     # --- collapse
     rd = FilReader(paths)
     ts = call("collapse", lambda: rd.collapse(**kw))
